@@ -12,6 +12,7 @@ import vlib
 GEN = []
 LEVEL = "translation_validation"
 TRUSTED = [
+    "for the THEOREM C01_fragment_preservation (Coq, all programs of the fragment coq/Pres/Frag.v): Coq 8.16.1 kernel, no axioms; the definitions SyltSem (source semantics), LuaCore (Lua 5.3 semantics), Back/IR.v lower, Pres/EmitAst.v emit_ast; the run-time tie 'emit_ast' (parse of the real chunk == pre_block ++ emit_ast code, evaluated by the extracted code: ocaml/pres_driver.ml, OCaml structural equality) and the byte tie of Back/IR.v with the real compiler (C10)",
     "coq/Sem/SyltSem.v: the reference interpreter for resolved Sylt programs (the definition of 'what the source denotes'); operators, printing and structural comparison are those of Sem/Runtime.v",
     "coq/Lua/LuaCore.v (dialect Lua 5.3): the interpreter that runs the REAL emitted chunk incl. the real preamble.lua; it is the definition of Lua's behaviour here (no real interpreter exists in the sandbox)",
     "the cfg-guarded hook sylt_compiler::verif::phases (the reference interpreter runs on the real resolver's output) and tools/resolved_io.py",
@@ -20,7 +21,13 @@ TRUSTED = [
 ]
 ASSUMPTIONS = ["numbers: ints are unbounded (no 64-bit wrap), floats and division are outside the compared fragment",
                "programs run with --no-std and declare `print` themselves; programs the reference interpreter cannot handle (OUnsup) are skipped and counted"]
-EXPLANATION = ("Per-program validation (not a theorem for all programs): for generated well-typed programs dense in recursion, closures over "
+EXPLANATION = ("THEOREM for a fragment + validation beyond it. C01_fragment_preservation (Coq, closed under the global context): for every resolved "
+               "program in the computable fragment coq/Pres/Frag.v (stage 1: print external + start whose body has definitions of int/bool "
+               "expressions, print calls, + - *, comparisons, <=>, and/or/not, unary minus, nested blocks), if the lowering gives IR `code` and "
+               "the reference interpreter ends with done/assert/unreachable, then LuaCore running the statements of the real preamble.lua followed "
+               "by emit_ast code prints the same lines and ends the same way, for every sufficiently large fuel. The tie component 'emit_ast' checks "
+               "on every accepted program that the Lua parser model reads the REAL compiler output as exactly that abstract syntax, and evaluates "
+               "`frag` on the real resolver output (programs_in_fragment). Beyond the fragment: per-program validation: for generated well-typed programs dense in recursion, closures over "
                "mutable variables, if/case expressions held across calls, short-circuit operators, loops with break/continue, early ret, blobs, "
                "enums, tuples, lists and globals, the trace and final outcome of the REAL emitted Lua run in the Coq Lua 5.3 interpreter must equal "
                "those of the Coq reference interpreter run on the real resolver output. The full statement C01_full is left as a Prop.")
@@ -117,7 +124,7 @@ def compare(ctx, srcs, pres=None):
             continue
         sfin, strace, why = canon_sem(s)
         lfin = canon_lua(l)
-        if sfin in ("unsup", "fuel") or lfin in ("unsupported", "fuel", "crash"):
+        if sfin in ("unsup", "fuel", "timeout") or lfin in ("unsupported", "fuel", "crash"):
             out[i] = ("skip", "%s / %s %s" % (sfin, lfin, why))
             continue
         if sfin == "stuck":
